@@ -29,23 +29,22 @@ func c02(c *Check) {
 	c.Extra["frozen_entries"] = n
 
 	c.Rule("C02/tss-proof-only-for-tss", "the proof argument handed to the client is msg.ProofCommitment / msg.ProofAcked, replaced by msg.Signer only on the ClientType()==\"tss-client\" branch", 2)
-	for _, spec := range []struct{ fn, callee, proofField string }{
-		{pkKeeper + "Keeper.RecvPacket", "exported.ClientState.VerifyPacketCommitment", "ProofCommitment"},
-		{pkKeeper + "Keeper.AcknowledgePacket", "exported.ClientState.VerifyPacketAcknowledgement", "ProofAcked"},
-	} {
-		fn := c.F(spec.fn)
-		for _, cs := range c.Calls(fn, spec.callee) {
-			a := c.P.ArgExprs(cs)
-			want := "phi{$2." + spec.proofField + " | $2.Signer}"
-			ok := a[5].String() == want
-			// the Signer alternative is selected by the TSS client-type test
-			tssBranch := false
-			for _, i := range c.P.FA(fn).ifs {
-				if strings.Contains(c.P.Ex(fn).E(i.Cond).String(), `.ClientType(`) && strings.Contains(c.P.Ex(fn).E(i.Cond).String(), `"tss"`) {
-					tssBranch = true
-				}
-			}
-			c.Req(ok && tssBranch, "C02/tss-proof-only-for-tss", funcName(fn)+"/proof-argument", cs.Ins.Pos(), a[5].String(), "proof argument is "+a[5].String()+" (required "+want+", chosen by the TSS client-type test)")
+	tssProofRule(c, "C02/tss-proof-only-for-tss")
+
+	c.Rule("C02/msg-server-gated-by-verification", "the msg server rejects when the packet keeper's RecvPacket / AcknowledgePacket returns an error (whatever the error), and every contract call, ack write and success return is dominated by the err==nil edge", 10)
+	{
+		m := msM
+		recv := c.F(xibcK + "Keeper.RecvPacket")
+		c.HasGuard(recv, "C02/msg-server-gated-by-verification", "recv-error-rejects", m, "reject ({KRECV} != nil)")
+		c.SuccessUnder(recv, "C02/msg-server-gated-by-verification", m, "({KRECV} == nil)")
+		ack := c.F(xibcK + "Keeper.Acknowledgement")
+		c.HasGuard(ack, "C02/msg-server-gated-by-verification", "ack-error-rejects", m, "reject ({KACK} != nil)")
+		c.SuccessUnder(ack, "C02/msg-server-gated-by-verification", m, "({KACK} == nil)")
+		for i, cs := range c.Calls(ack, "keeper.(Keeper).CallPacket") {
+			c.Under(ack, "C02/msg-server-gated-by-verification", "ack-CallPacket#"+itoa(i), m, cs.Ins, "({KACK} == nil)")
+		}
+		for i, cs := range c.Calls(recv, "keeper.(Keeper).CallPacket") {
+			c.Under(recv, "C02/msg-server-gated-by-verification", "recv-CallPacket#"+itoa(i), m, cs.Ins, "({KRECV} == nil)")
 		}
 	}
 
@@ -69,6 +68,9 @@ func c04(c *Check) {
 	c.Rule("C04/hook", "frozen table: PostTxProcessing only acts on logs of the packet contract address with the PacketSent event, and returns every error (lookup, unpack, JSON, decode, SendPacket) so that a failing send reverts the EVM transaction", 7)
 	n := c.Frozen("C04")
 	c.Extra["frozen_entries"] = n
+
+	c.Rule("C04/failing-hook-fails-the-call", "CallEVMWithData: a post-transaction hook error (e.g. a failing SendPacket) marks the response failed and the failure test is evaluated after the hook, so a failing send fails the enclosing call (shared with C03)", 4)
+	evmHookRule(c, "C04/failing-hook-fails-the-call")
 
 	c.Rule("C04/once", "on every success path of SendPacket exactly one SetNextSequenceSend, one setSequence call and one SetPacketCommitment", 3)
 	sp := c.F(pkKeeper + "Keeper.SendPacket")
@@ -148,10 +150,58 @@ func c05(c *Check) {
 		c.ErrPropagated(cs, "C05/one-ack-per-receive", "WriteAcknowledgement#"+itoa(i))
 	}
 
+	c.Rule("C05/ack-write-persists", "every WriteAcknowledgement of the msg server writes to the outer context, or to the cache context only where write() dominates every success return reachable from it (an ack written to a dropped cache is lost)", 3)
+	{
+		fa := c.P.FA(ms)
+		writes := c.Calls(ms, m.X("dyn:{CC}#1"))
+		for i, cs := range c.Calls(ms, "keeper.(Keeper).WriteAcknowledgement") {
+			ctxArg := c.P.ArgExprs(cs)[1].String()
+			construct := funcName(ms) + "/WriteAcknowledgement#" + itoa(i) + " persists"
+			if ctxArg == m.X("{CTX}") {
+				c.Ok("C05/ack-write-persists", construct, cs.Ins.Pos(), "outer context")
+				continue
+			}
+			ok := len(writes) == 1
+			if ok {
+				wb := writes[0].Ins.Block()
+				reach := fa.reachFrom(cs.Ins.Block())
+				for _, r := range fa.NonRejectReturns() {
+					if reach[r.Block().Index] && !(wb == r.Block() || wb.Dominates(r.Block())) {
+						ok = false
+					}
+				}
+			}
+			c.Req(ok, "C05/ack-write-persists", construct, cs.Ins.Pos(), "cache context flushed on every path", "acknowledgement is written on "+trunc(ctxArg)+" but a success return is reachable without write(): the ack is silently dropped while the receipt stays")
+		}
+	}
+
 	c.Rule("C05/ack-processed-once", "msg server Acknowledgement: outcome recorded, fee paid and callback run once each, only after a verified acknowledgement (shared structure with C03/ack-outcome)", 20)
 	ackSpec(c, "C05/ack-processed-once")
 }
 
 func itoa(i int) string {
 	return strings.TrimSpace(strings.Replace(strings.Repeat(" ", 0)+sprint(i), "\n", "", -1))
+}
+
+// tssProofRule: the proof handed to the light client is the message's proof field, replaced by the signer only for TSS clients.
+func tssProofRule(c *Check, rule string) {
+	for _, spec := range []struct{ fn, callee, proofField string }{
+		{pkKeeper + "Keeper.RecvPacket", "exported.ClientState.VerifyPacketCommitment", "ProofCommitment"},
+		{pkKeeper + "Keeper.AcknowledgePacket", "exported.ClientState.VerifyPacketAcknowledgement", "ProofAcked"},
+	} {
+		fn := c.F(spec.fn)
+		for _, cs := range c.Calls(fn, spec.callee) {
+			a := c.P.ArgExprs(cs)
+			want := "phi{$2." + spec.proofField + " | $2.Signer}"
+			ok := a[5].String() == want
+			// the Signer alternative is selected by the TSS client-type test
+			tssBranch := false
+			for _, i := range c.P.FA(fn).ifs {
+				if strings.Contains(c.P.Ex(fn).E(i.Cond).String(), `.ClientType(`) && strings.Contains(c.P.Ex(fn).E(i.Cond).String(), `"tss"`) {
+					tssBranch = true
+				}
+			}
+			c.Req(ok && tssBranch, rule, funcName(fn)+"/proof-argument", cs.Ins.Pos(), a[5].String(), "proof argument is "+a[5].String()+" (required "+want+", chosen by the TSS client-type test)")
+		}
+	}
 }
